@@ -4,9 +4,12 @@ import vlib, gen, impl
 from props.c01 import VERSIONS, excluded
 from props.c08 import struct_info
 
-MODULES = ['Hl7.Props.C04', 'Hl7.Props.C04Tree']
+MODULES = ['Hl7.Props.C04', 'Hl7.Props.C04Tree', 'Hl7.Props.C04Seg']
 THEOREMS = ['Hl7.Val.C04_tree', 'Hl7.Val.C04_message', 'Hl7.Val.conf_valid', 'Hl7.Val.valid_conf', 'Hl7.Val.C04_missing_required', 'Hl7.Val.C04_limit_exceeded', 'Hl7.Val.C04_foreign_child', 'Hl7.Val.C04_conforming_level',
-            'Hl7.Val.C04_report', 'Hl7.Val.checkReps_ok']
+            'Hl7.Val.C04_report', 'Hl7.Val.checkReps_ok',
+            'Hl7.Val.C04_seg_missing', 'Hl7.Val.C04_seg_exceeded', 'Hl7.Val.C04_seg_foreign', 'Hl7.Val.C04_seg_child_errors_kept',
+            'Hl7.Val.C04_field_missing', 'Hl7.Val.C04_field_exceeded', 'Hl7.Val.C04_field_foreign', 'Hl7.Val.C04_field_child_errors_kept',
+            'Hl7.Val.C04_comp_cardinality', 'Hl7.Val.C04_comp_foreign']
 
 
 # ---------------------------------------------------------------- an independent, declarative notion of conformance
